@@ -44,7 +44,7 @@ def registry : List (String × (List String → IO UInt32)) := [
   ("Rt", Rt.drive),
   ("Sem", Sem.drive),
   ("Barrier", Barrier.drive),
-  ("RwLock", RwLock.drive),
+  ("RwLock", RwLock.drive), ("RwWord", RwLock.driveWord),
   ("Sleep", Sleep.drive),
   ("Spin", Spin.drive),
   ("WorkQueue", WorkQueue.drive),
